@@ -18,6 +18,9 @@ def items(tier):
         out.append(mk("C10", p, "FindAllIndex", 2, a, mode=1, strategy=strat))
         if "cap" in tags:
             out.append(mk("C10", p, "FindSubmatchIndex", maxL, a, mode=1, strategy=strat))
+            for pre, post in corpus.windows(p):
+                out.append(mk("C10", p, "FindSubmatchIndex", maxL, a, mode=1, strategy=strat, pre=pre, post=post))
+                out.append(mk("C10", p, "FindIndex", maxL, a, mode=1, strategy=strat, pre=pre, post=post))
         out.append(mk("C10", p, "CopyIsolation", 2, a, mode=0, strategy=strat))
         if corpus.posix_ok(p):
             out.append(mk("C10", p, "FindIndex", 2, a, mode=2, strategy=strat))
